@@ -14,6 +14,10 @@ def check_C01(rep, known):
     scen_job(rep, 'ScenShoot', 'C01', [r'C01\.', r'build', r'varmap'], known)
 
 
+def check_C02(rep, known):
+    scen_job(rep, 'ScenShoot', 'C02', [r'C02\.', r'build', r'varmap'], known)
+
+
 def check_C04(rep, known):
     scen_job(rep, 'ScenShoot', 'C04', [r'C04\.', r'build', r'varmap'], known)
 
@@ -88,5 +92,5 @@ def check_C18(rep, known):
     life_job(rep, [r'C18\.', r'C13\.d:outcome@\d+:save'], known)
 
 
-CHECKS = {'C06': check_C06, 'C01': check_C01, 'C04': check_C04, 'C05': check_C05, 'C13': check_C13, 'C18': check_C18, 'C09': check_C09, 'C10': check_C10}
+CHECKS = {'C02': check_C02, 'C06': check_C06, 'C01': check_C01, 'C04': check_C04, 'C05': check_C05, 'C13': check_C13, 'C18': check_C18, 'C09': check_C09, 'C10': check_C10}
 ENGINE = {p: ['life', 'replay'] for p in ('C13', 'C18', 'C09', 'C10')}
